@@ -20,6 +20,9 @@ from .model import AnalysisError, Program
 
 VERIF = os.path.dirname(os.path.dirname(os.path.abspath(__file__)))
 KNOWN_FILE = os.path.join(VERIF, "known_findings.json")
+# self-test runs redirect evidence/findings so that the committed evidence is never
+# overwritten by a run against a scratch copy
+OUT = os.environ.get("VERIF_OUT") or VERIF
 
 
 def norm_text(s: str) -> str:
@@ -102,8 +105,8 @@ class Report:
     # ------------------------------------------------------------------ output
     def finish(self) -> int:
         known = load_known()
-        os.makedirs(os.path.join(VERIF, "evidence"), exist_ok=True)
-        fdir = os.path.join(VERIF, "findings", self.prop)
+        os.makedirs(os.path.join(OUT, "evidence"), exist_ok=True)
+        fdir = os.path.join(OUT, "findings", self.prop)
         os.makedirs(fdir, exist_ok=True)
         for old in os.listdir(fdir):
             if old.endswith(".json"):
@@ -171,7 +174,7 @@ class Report:
             "wall_s": round(wall, 3),
             "violations": new_violations,
         }
-        with open(os.path.join(VERIF, "evidence", f"{self.prop}.json"), "w") as fh:
+        with open(os.path.join(OUT, "evidence", f"{self.prop}.json"), "w") as fh:
             json.dump(ev, fh, indent=1, default=str)
         print(
             f"[{self.prop}] tier={self.tier} rules={len(self.rules)} obligations={self.obligations} "
